@@ -156,13 +156,18 @@ def search(ctx, why, budget=None):
                 found["grid"] = Finding("divconn:grid-roots", f"division_connected on a {h}x{w} IntArray2D, k={k}, roots={roots}, "
                                         f"allow_empty_group={allow_empty}, labels={bad[0]}: satisfiable={bad[1]} expected {bad[2]}",
                                         {"grid": [h, w], "k": k, "roots": roots, "allow_empty": allow_empty, "labels": bad[0]})
+    seen_n3 = []
     for (n, edges) in graphs.reversed_specials() + graphs.small_graphs(rng, budget or ctx.n(10, 30), 4):
         if n > 4:
             continue
-        for k in (1, 2, 3):
-            if k ** n > (40 if ctx.quick() else 300):
+        ks = [1, 2, 3]
+        if n == 3 and edges and len(seen_n3) < 2:
+            seen_n3.append(1)
+            ks.append(n + 2)          # more labels than vertices (only meaningful with empty groups): on two 3-vertex graphs
+        for k in ks:
+            if k ** n > (40 if ctx.quick() else 300) and k <= 3:
                 continue
-            for allow_empty in (False, True):
+            for allow_empty in ((False, True) if k <= 3 else (True,)):
                 roots_opts = [None, [None] * k, [rng.choice([None, rng.randrange(n)]) for _ in range(k)]]
                 for roots in roots_opts:
                     for prim in (False, True):
